@@ -34,6 +34,7 @@ type prec struct {
 	returnSeq  uint64
 	promises   int
 	promSeq    uint64
+	promEndSeq uint64 // event at which the promise callback returned
 	promAt     time.Duration
 	err        error
 	off        int64
@@ -228,6 +229,14 @@ func (st *prodState) promise(p *prec) func(*kgo.Record, error) {
 			cancel() // event-triggered: runs while other goroutines are runnable
 		}
 		st.s.UserCode()
+		if pct := st.s.P.Knob("prom_sleep_pct", 0); pct > 0 && int64(st.s.Pick(100)) < pct {
+			// a promise that takes its time (only the promise: hooks inside
+			// TryProduce stay instantaneous)
+			time.Sleep(time.Duration(100+st.s.Pick(int(st.s.P.Knob("prom_sleep_us_max", 5000)))) * time.Microsecond)
+		}
+		st.mu.Lock()
+		p.promEndSeq = st.s.Seq()
+		st.mu.Unlock()
 	}
 }
 
@@ -771,7 +780,13 @@ func (st *prodState) checkHistory() {
 		if r.promSeq < r.returnSeq {
 			continue // promise ran before Produce returned
 		}
-		edges = append(edges, edge{r.returnSeq, +1, r.size + len(r.rec.Key), r.client}, edge{r.promSeq, -1, r.size + len(r.rec.Key), r.client})
+		// a record counts until its promise has RUN, i.e. returned (a
+		// promise that takes its time still holds the slot)
+		end := r.promSeq
+		if r.promEndSeq > end {
+			end = r.promEndSeq
+		}
+		edges = append(edges, edge{r.returnSeq, +1, r.size + len(r.rec.Key), r.client}, edge{end, -1, r.size + len(r.rec.Key), r.client})
 	}
 	sort.Slice(edges, func(i, j int) bool { return edges[i].seq < edges[j].seq })
 	occ := map[string]int{}
@@ -817,7 +832,7 @@ func (st *prodState) checkHistory() {
 			if r.err != nil && !postAcceptErr(r.err) {
 				continue
 			}
-			if r.promSeq == 0 || r.promSeq > f.returnSeq {
+			if r.promSeq == 0 || r.promSeq > f.returnSeq || r.promEndSeq > f.returnSeq {
 				s.Violf("C03/flush/early-return", "Flush [%d,%d] returned nil but %s (produced at %d) was promised at %d", f.invokeSeq, f.returnSeq, r.val, r.returnSeq, r.promSeq)
 				break
 			}
